@@ -197,6 +197,7 @@ package builtInFunctions
 // ---- ESDTNFTAddURI -----------------------------------------------------------------------------------------
 
 //@ func (e *esdtNFTAddUri) getGasCostForURIStore
+//@   requires lockHeld(e, ".mutExecution")
 //@   requires e != nil && vmInput != nil && len(vmInput.Arguments) >= 2 && argBounds(vmInput) && costBound(e.gasConfig.StorePerByte)
 //@   loop 0 invariant lenURIs == lsum(list(vmInput.Arguments), 2, rangeindex + 3) && rangeindex + 3 <= len(vmInput.Arguments)
 //@   ensures[C16] r == e.gasConfig.StorePerByte * lsum(list(vmInput.Arguments), 2, len(vmInput.Arguments))
@@ -572,6 +573,7 @@ package builtInFunctions
 
 //@ func (e *esdtNFTMultiTransfer) createESDTNFTOutputTransfers
 //@   view dstA = seq(dstAddress)
+//@   requires lockHeld(e, ".mutExecution")
 //@   requires e != nil && !isNil(e.marshalizer) && !isNil(e.shardCoordinator) && vmInput != nil && vmOutput != nil
 //@   requires len(listTokenIDs) == len(listESDTTransferData) && len(listESDTTransferData) < 1048576 && costBound(e.gasConfig.DataCopyPerByte)
 //@   requires forall(j, int, 0 <= j && j < len(listESDTTransferData) ==> listESDTTransferData[j] != nil && listESDTTransferData[j].Value != nil)
@@ -584,6 +586,7 @@ package builtInFunctions
 
 //@ func (e *esdtNFTMultiTransfer) processESDTNFTMultiTransferOnSenderShard
 //@   results out, err
+//@   requires lockHeld(e, ".mutExecution")
 //@   view snd = seq(vmInput.CallerAddr)
 //@   view dstA = seq(vmInput.Arguments[0])
 //@   view nT = beval(seq(vmInput.Arguments[1])) % 18446744073709551616
@@ -633,3 +636,147 @@ package builtInFunctions
 //@   ensures[C02,C05] forall(a, addr, k, bseq, St[a][k] != old(St)[a][k] ==> ((senderSide && (a == snd || a == seq(vmInput.Arguments[0]))) || (!senderSide && a == rcv)) && isTokKey(k))
 //@   ensures[C15] err == nil ==> WFvalues(St)
 //@   modifies St, failed, readFailed, loadFailed
+
+// ---- pricing: every priced function takes its own entry of the schedule (C16), inside one write-locked section (C19) ----
+
+//@ func (c *changeOwnerAddress) SetNewGasConfig
+//@   requires c != nil && locksFree()
+//@   ensures[C16] gasCost != nil ==> c.gasCost == gasCost.BuiltInCost.ChangeOwnerAddress
+//@   ensures[C16] gasCost == nil ==> c.gasCost == old(c.gasCost)
+//@   modifies c.gasCost
+
+//@ func (c *claimDeveloperRewards) SetNewGasConfig
+//@   requires c != nil && locksFree()
+//@   ensures[C16] gasCost != nil ==> c.gasCost == gasCost.BuiltInCost.ClaimDeveloperRewards
+//@   ensures[C16] gasCost == nil ==> c.gasCost == old(c.gasCost)
+//@   modifies c.gasCost
+
+//@ func (s *saveUserName) SetNewGasConfig
+//@   requires s != nil && locksFree()
+//@   ensures[C16] gasCost != nil ==> s.gasCost == gasCost.BuiltInCost.SaveUserName
+//@   ensures[C16] gasCost == nil ==> s.gasCost == old(s.gasCost)
+//@   modifies s.gasCost
+
+//@ func (k *saveKeyValueStorage) SetNewGasConfig
+//@   requires k != nil && locksFree()
+//@   ensures[C16] gasCost != nil ==> k.funcGasCost == gasCost.BuiltInCost.SaveKeyValue && k.gasConfig.StorePerByte == gasCost.BaseOperationCost.StorePerByte && k.gasConfig.ReleasePerByte == gasCost.BaseOperationCost.ReleasePerByte && k.gasConfig.DataCopyPerByte == gasCost.BaseOperationCost.DataCopyPerByte && k.gasConfig.PersistPerByte == gasCost.BaseOperationCost.PersistPerByte && k.gasConfig.CompilePerByte == gasCost.BaseOperationCost.CompilePerByte && k.gasConfig.AoTPreparePerByte == gasCost.BaseOperationCost.AoTPreparePerByte
+//@   ensures[C16] gasCost == nil ==> k.funcGasCost == old(k.funcGasCost) && k.gasConfig.StorePerByte == old(k.gasConfig.StorePerByte) && k.gasConfig.ReleasePerByte == old(k.gasConfig.ReleasePerByte) && k.gasConfig.DataCopyPerByte == old(k.gasConfig.DataCopyPerByte) && k.gasConfig.PersistPerByte == old(k.gasConfig.PersistPerByte) && k.gasConfig.CompilePerByte == old(k.gasConfig.CompilePerByte) && k.gasConfig.AoTPreparePerByte == old(k.gasConfig.AoTPreparePerByte)
+//@   modifies k.funcGasCost, k.gasConfig.*
+
+//@ func (e *esdtTransfer) SetNewGasConfig
+//@   requires e != nil && locksFree()
+//@   ensures[C16] gasCost != nil ==> e.funcGasCost == gasCost.BuiltInCost.ESDTTransfer
+//@   ensures[C16] gasCost == nil ==> e.funcGasCost == old(e.funcGasCost)
+//@   modifies e.funcGasCost
+
+//@ func (e *esdtBurn) SetNewGasConfig
+//@   requires e != nil && locksFree()
+//@   ensures[C16] gasCost != nil ==> e.funcGasCost == gasCost.BuiltInCost.ESDTBurn
+//@   ensures[C16] gasCost == nil ==> e.funcGasCost == old(e.funcGasCost)
+//@   modifies e.funcGasCost
+
+//@ func (e *esdtLocalMint) SetNewGasConfig
+//@   requires e != nil && locksFree()
+//@   ensures[C16] gasCost != nil ==> e.funcGasCost == gasCost.BuiltInCost.ESDTLocalMint
+//@   ensures[C16] gasCost == nil ==> e.funcGasCost == old(e.funcGasCost)
+//@   modifies e.funcGasCost
+
+//@ func (e *esdtLocalBurn) SetNewGasConfig
+//@   requires e != nil && locksFree()
+//@   ensures[C16] gasCost != nil ==> e.funcGasCost == gasCost.BuiltInCost.ESDTLocalBurn
+//@   ensures[C16] gasCost == nil ==> e.funcGasCost == old(e.funcGasCost)
+//@   modifies e.funcGasCost
+
+//@ func (e *esdtNFTCreate) SetNewGasConfig
+//@   requires e != nil && locksFree()
+//@   ensures[C16] gasCost != nil ==> e.funcGasCost == gasCost.BuiltInCost.ESDTNFTCreate && e.gasConfig.StorePerByte == gasCost.BaseOperationCost.StorePerByte && e.gasConfig.ReleasePerByte == gasCost.BaseOperationCost.ReleasePerByte && e.gasConfig.DataCopyPerByte == gasCost.BaseOperationCost.DataCopyPerByte && e.gasConfig.PersistPerByte == gasCost.BaseOperationCost.PersistPerByte && e.gasConfig.CompilePerByte == gasCost.BaseOperationCost.CompilePerByte && e.gasConfig.AoTPreparePerByte == gasCost.BaseOperationCost.AoTPreparePerByte
+//@   ensures[C16] gasCost == nil ==> e.funcGasCost == old(e.funcGasCost) && e.gasConfig.StorePerByte == old(e.gasConfig.StorePerByte) && e.gasConfig.ReleasePerByte == old(e.gasConfig.ReleasePerByte) && e.gasConfig.DataCopyPerByte == old(e.gasConfig.DataCopyPerByte) && e.gasConfig.PersistPerByte == old(e.gasConfig.PersistPerByte) && e.gasConfig.CompilePerByte == old(e.gasConfig.CompilePerByte) && e.gasConfig.AoTPreparePerByte == old(e.gasConfig.AoTPreparePerByte)
+//@   modifies e.funcGasCost, e.gasConfig.*
+
+//@ func (e *esdtNFTAddQuantity) SetNewGasConfig
+//@   requires e != nil && locksFree()
+//@   ensures[C16] gasCost != nil ==> e.funcGasCost == gasCost.BuiltInCost.ESDTNFTAddQuantity
+//@   ensures[C16] gasCost == nil ==> e.funcGasCost == old(e.funcGasCost)
+//@   modifies e.funcGasCost
+
+//@ func (e *esdtNFTBurn) SetNewGasConfig
+//@   requires e != nil && locksFree()
+//@   ensures[C16] gasCost != nil ==> e.funcGasCost == gasCost.BuiltInCost.ESDTNFTBurn
+//@   ensures[C16] gasCost == nil ==> e.funcGasCost == old(e.funcGasCost)
+//@   modifies e.funcGasCost
+
+//@ func (e *esdtNFTTransfer) SetNewGasConfig
+//@   requires e != nil && locksFree()
+//@   ensures[C16] gasCost != nil ==> e.funcGasCost == gasCost.BuiltInCost.ESDTNFTTransfer && e.gasConfig.StorePerByte == gasCost.BaseOperationCost.StorePerByte && e.gasConfig.ReleasePerByte == gasCost.BaseOperationCost.ReleasePerByte && e.gasConfig.DataCopyPerByte == gasCost.BaseOperationCost.DataCopyPerByte && e.gasConfig.PersistPerByte == gasCost.BaseOperationCost.PersistPerByte && e.gasConfig.CompilePerByte == gasCost.BaseOperationCost.CompilePerByte && e.gasConfig.AoTPreparePerByte == gasCost.BaseOperationCost.AoTPreparePerByte
+//@   ensures[C16] gasCost == nil ==> e.funcGasCost == old(e.funcGasCost) && e.gasConfig.StorePerByte == old(e.gasConfig.StorePerByte) && e.gasConfig.ReleasePerByte == old(e.gasConfig.ReleasePerByte) && e.gasConfig.DataCopyPerByte == old(e.gasConfig.DataCopyPerByte) && e.gasConfig.PersistPerByte == old(e.gasConfig.PersistPerByte) && e.gasConfig.CompilePerByte == old(e.gasConfig.CompilePerByte) && e.gasConfig.AoTPreparePerByte == old(e.gasConfig.AoTPreparePerByte)
+//@   modifies e.funcGasCost, e.gasConfig.*
+
+//@ func (e *esdtNFTMultiTransfer) SetNewGasConfig
+//@   requires e != nil && locksFree()
+//@   ensures[C16] gasCost != nil ==> e.funcGasCost == gasCost.BuiltInCost.ESDTNFTMultiTransfer && e.gasConfig.StorePerByte == gasCost.BaseOperationCost.StorePerByte && e.gasConfig.ReleasePerByte == gasCost.BaseOperationCost.ReleasePerByte && e.gasConfig.DataCopyPerByte == gasCost.BaseOperationCost.DataCopyPerByte && e.gasConfig.PersistPerByte == gasCost.BaseOperationCost.PersistPerByte && e.gasConfig.CompilePerByte == gasCost.BaseOperationCost.CompilePerByte && e.gasConfig.AoTPreparePerByte == gasCost.BaseOperationCost.AoTPreparePerByte
+//@   ensures[C16] gasCost == nil ==> e.funcGasCost == old(e.funcGasCost) && e.gasConfig.StorePerByte == old(e.gasConfig.StorePerByte) && e.gasConfig.ReleasePerByte == old(e.gasConfig.ReleasePerByte) && e.gasConfig.DataCopyPerByte == old(e.gasConfig.DataCopyPerByte) && e.gasConfig.PersistPerByte == old(e.gasConfig.PersistPerByte) && e.gasConfig.CompilePerByte == old(e.gasConfig.CompilePerByte) && e.gasConfig.AoTPreparePerByte == old(e.gasConfig.AoTPreparePerByte)
+//@   modifies e.funcGasCost, e.gasConfig.*
+
+//@ func (e *esdtNFTAddUri) SetNewGasConfig
+//@   requires e != nil && locksFree()
+//@   ensures[C16] gasCost != nil ==> e.funcGasCost == gasCost.BuiltInCost.ESDTNFTAddURI && e.gasConfig.StorePerByte == gasCost.BaseOperationCost.StorePerByte && e.gasConfig.ReleasePerByte == gasCost.BaseOperationCost.ReleasePerByte && e.gasConfig.DataCopyPerByte == gasCost.BaseOperationCost.DataCopyPerByte && e.gasConfig.PersistPerByte == gasCost.BaseOperationCost.PersistPerByte && e.gasConfig.CompilePerByte == gasCost.BaseOperationCost.CompilePerByte && e.gasConfig.AoTPreparePerByte == gasCost.BaseOperationCost.AoTPreparePerByte
+//@   ensures[C16] gasCost == nil ==> e.funcGasCost == old(e.funcGasCost) && e.gasConfig.StorePerByte == old(e.gasConfig.StorePerByte) && e.gasConfig.ReleasePerByte == old(e.gasConfig.ReleasePerByte) && e.gasConfig.DataCopyPerByte == old(e.gasConfig.DataCopyPerByte) && e.gasConfig.PersistPerByte == old(e.gasConfig.PersistPerByte) && e.gasConfig.CompilePerByte == old(e.gasConfig.CompilePerByte) && e.gasConfig.AoTPreparePerByte == old(e.gasConfig.AoTPreparePerByte)
+//@   modifies e.funcGasCost, e.gasConfig.*
+
+//@ func (e *esdtNFTupdate) SetNewGasConfig
+//@   requires e != nil && locksFree()
+//@   ensures[C16] gasCost != nil ==> e.funcGasCost == gasCost.BuiltInCost.ESDTNFTUpdateAttributes && e.gasConfig.StorePerByte == gasCost.BaseOperationCost.StorePerByte && e.gasConfig.ReleasePerByte == gasCost.BaseOperationCost.ReleasePerByte && e.gasConfig.DataCopyPerByte == gasCost.BaseOperationCost.DataCopyPerByte && e.gasConfig.PersistPerByte == gasCost.BaseOperationCost.PersistPerByte && e.gasConfig.CompilePerByte == gasCost.BaseOperationCost.CompilePerByte && e.gasConfig.AoTPreparePerByte == gasCost.BaseOperationCost.AoTPreparePerByte
+//@   ensures[C16] gasCost == nil ==> e.funcGasCost == old(e.funcGasCost) && e.gasConfig.StorePerByte == old(e.gasConfig.StorePerByte) && e.gasConfig.ReleasePerByte == old(e.gasConfig.ReleasePerByte) && e.gasConfig.DataCopyPerByte == old(e.gasConfig.DataCopyPerByte) && e.gasConfig.PersistPerByte == old(e.gasConfig.PersistPerByte) && e.gasConfig.CompilePerByte == old(e.gasConfig.CompilePerByte) && e.gasConfig.AoTPreparePerByte == old(e.gasConfig.AoTPreparePerByte)
+//@   modifies e.funcGasCost, e.gasConfig.*
+
+// ---- activation (C18) ----------------------------------------------------------------------------------------------------
+
+//@ func (b *baseEnabled) EpochConfirmed
+//@   requires b != nil
+//@   ensures[C18] (b.flagActivated.value == 1) == (epoch >= b.activationEpoch) && (b.flagActivated.value == 0 || b.flagActivated.value == 1)
+//@   ensures[C18] b.activationEpoch == old(b.activationEpoch)
+//@   modifies b.flagActivated.value
+
+//@ func (b *baseEnabled) IsActive
+//@   requires b != nil
+//@   ensures[C18] r == (b.flagActivated.value == 1)
+
+//@ func (b baseAlwaysActive) IsActive
+//@   ensures[C18] r
+
+// lemmaActivationFollowsLastEpoch: after any two notifications (in particular a regression or a
+// repeat) the function is active exactly when the LAST confirmed epoch is >= the activation epoch
+func lemmaActivationFollowsLastEpoch(b *baseEnabled, e1, e2 uint32, t1, t2 uint64) bool {
+	b.EpochConfirmed(e1, t1)
+	b.EpochConfirmed(e2, t2)
+	return b.IsActive()
+}
+
+//@ func lemmaActivationFollowsLastEpoch
+//@   requires b != nil
+//@   ensures[C18] r == (e2 >= old(b.activationEpoch))
+//@   modifies b.flagActivated.value
+
+// ---- guarded-by discipline (C19): cost fields are read under the read lock and written under the write lock ----
+
+//@ guarded changeOwnerAddress .gasCost by .mutExecution
+//@ guarded claimDeveloperRewards .gasCost by .mutExecution
+//@ guarded saveUserName .gasCost by .mutExecution
+//@ guarded saveKeyValueStorage .funcGasCost by .mutExecution
+//@ guarded saveKeyValueStorage .gasConfig by .mutExecution
+//@ guarded esdtTransfer .funcGasCost by .mutExecution
+//@ guarded esdtBurn .funcGasCost by .mutExecution
+//@ guarded esdtLocalMint .funcGasCost by .mutExecution
+//@ guarded esdtLocalBurn .funcGasCost by .mutExecution
+//@ guarded esdtNFTCreate .funcGasCost by .mutExecution
+//@ guarded esdtNFTCreate .gasConfig by .mutExecution
+//@ guarded esdtNFTAddQuantity .funcGasCost by .mutExecution
+//@ guarded esdtNFTBurn .funcGasCost by .mutExecution
+//@ guarded esdtNFTTransfer .funcGasCost by .mutExecution
+//@ guarded esdtNFTTransfer .gasConfig by .mutExecution
+//@ guarded esdtNFTMultiTransfer .funcGasCost by .mutExecution
+//@ guarded esdtNFTMultiTransfer .gasConfig by .mutExecution
+//@ guarded esdtNFTAddUri .funcGasCost by .mutExecution
+//@ guarded esdtNFTAddUri .gasConfig by .mutExecution
+//@ guarded esdtNFTupdate .funcGasCost by .mutExecution
+//@ guarded esdtNFTupdate .gasConfig by .mutExecution
